@@ -537,10 +537,17 @@ pub fn run(head: &str, steps: &str) -> Result<String, String> {
                 let ms: u64 = parts.get(1).and_then(|x| x.parse().ok()).unwrap_or(100);
                 let tag = slots.lock().unwrap().len();
                 let slot = new_slot(&slots);
-                if let Handle::Threaded(c) = &handle {
-                    let options = SubscribeOptions::builder().with_ack_timeout(Duration::from_millis(ms)).build();
-                    let r = c.subscribe(SubscribePacket::builder().with_subscription_simple(format!("noack/{}", tag), QualityOfService::AtLeastOnce).build(), Some(options));
-                    std::thread::spawn(move || { let v = r.recv(); slot.lock().unwrap().push(error_name(&v)); });
+                match &handle {
+                    Handle::Threaded(c) => {
+                        let options = SubscribeOptions::builder().with_ack_timeout(Duration::from_millis(ms)).build();
+                        let r = c.subscribe(SubscribePacket::builder().with_subscription_simple(format!("noack/{}", tag), QualityOfService::AtLeastOnce).build(), Some(options));
+                        std::thread::spawn(move || { let v = r.recv(); slot.lock().unwrap().push(error_name(&v)); });
+                    }
+                    Handle::Tokio(c, rt) => {
+                        let options = SubscribeOptions::builder().with_ack_timeout(Duration::from_millis(ms)).build();
+                        let f = c.subscribe(SubscribePacket::builder().with_subscription_simple(format!("noack/{}", tag), QualityOfService::AtLeastOnce).build(), Some(options));
+                        rt.spawn(async move { let r = f.await; slot.lock().unwrap().push(error_name(&r)); });
+                    }
                 }
             }
             "release" => {
